@@ -134,6 +134,14 @@ func GenF32(c *simkit.Choices, allowNonFinite bool) Val {
 }
 
 var strLenBoundaries = []int{0, 1, 2, 3, 22, 23, 24, 25, 55, 56, 57, 62, 63, 64, 65, 66, 70, 71, 72, 127, 128, 129, 255, 256, 257}
+
+// markerLens: lengths whose single length byte equals a marker byte of a wire
+// format (UBJSON '#' '$' 'C' 'D' 'F' 'H' 'I' 'L' 'N' 'S' 'T' 'U' 'Z' '[' ']'
+// 'd' 'i' 'l' '{' '}'): a parser that looks at the first byte of a resumed
+// chunk without remembering that a length is pending reads the length of a
+// 125-byte key as the end of the object.
+var markerLens = []int{35, 36, 67, 68, 70, 72, 73, 76, 78, 83, 84, 85, 90, 91, 93, 100, 105, 108, 123, 125, 125, 93}
+
 var strLenBig = []int{300, 511, 512, 513, 1000, 4095, 4096, 4097, 32767, 32768, 65535, 65536}
 
 var runePool = []string{"\u00e9", "\u00df", "\u0436", "\u4e2d", "\u20ac", "\u2028", "\u2029", "\U0001F600", "\U0001D11E", "\u00a0", "\u0085", "\ufeff", "\ufffd", "\u07ff", "\u0800", "\uffff", "\U00010000", "\U0010ffff"}
@@ -187,8 +195,16 @@ func GenText(c *simkit.Choices, maxLen int) string {
 		n = c.N(6)
 	case 3, 4:
 		n = c.N(20)
-	case 5, 6:
+	case 5:
 		n = strLenBoundaries[c.N(len(strLenBoundaries))]
+	case 6:
+		n = strLenBoundaries[c.N(len(strLenBoundaries))]
+		if maxLen >= 64 && c.N(3) == 0 {
+			n = markerLens[c.N(len(markerLens))]
+			if n > maxLen {
+				maxLen = n // (at most 125 bytes)
+			}
+		}
 	default:
 		if maxLen > 257 {
 			n = strLenBig[c.N(len(strLenBig))]
@@ -238,6 +254,12 @@ func GenKey(c *simkit.Choices, maxLen int) string {
 			sb.WriteByte(byte('a' + c.N(26)))
 		}
 		return sb.String()
+	case 6:
+		if maxLen >= 24 && c.Bool() {
+			// (not clipped to maxLen: at most 125 bytes)
+			return strings.Repeat(string(rune('a'+c.N(26))), markerLens[c.N(len(markerLens))])
+		}
+		return GenText(c, maxLen)
 	default:
 		return GenText(c, maxLen)
 	}
